@@ -17,7 +17,7 @@ def run(ctx):
     skipped = [r for r in rows if len(r) >= 3 and r[1] == "SKIP"]
     feats = next((r[1] for r in rows if r[0] == "#FEATS"), "")
     model = ctx.model("c05", [f"{r[0]}\t{r[2]}" for r in cases]) if (cases and os.path.exists(vlib.MODEL)) else {}
-    n_eq = n_scoped = n_ill = n_corpus = n_accept = 0
+    n_eq = n_scoped = n_ill = n_corpus = n_accept = n_patclass = 0
     distinct = set()
     samples = []
     streams = {}
@@ -37,6 +37,7 @@ def run(ctx):
         uses = int(re.search(r"uses=(\d+)", stats).group(1))
         binders = int(re.search(r"binders=(\d+)", stats).group(1))
         shared = re.search(r"shared=(\S+)", stats).group(1)
+        patclass = (re.search(r"patclass=(\S+)", stats) or [None, "-"])[1]
         stream = re.search(r"stream=(\w+)", stats).group(1)
         site = (re.search(r"site=(\w+)", stats) or [None, "-"])[1]
         streams[f"{stream}/{site}"] = streams.get(f"{stream}/{site}", 0) + 1
@@ -48,7 +49,16 @@ def run(ctx):
             samples.append({"id": cid, "src": src, "resolution": real, "accepted": acc[:80], "well_scoped": scoped})
         payload = {"id": cid, "src": src, "expected_resolution(spec)": spec, "observed_resolution": real,
                    "model_of_implementation": impl, "compile": acc, "well_scoped_by_spec": scoped,
-                   "lowering_calls_no_local_a_constructor": con_ok, "binders_sharing_one_id": shared}
+                   "lowering_calls_no_local_a_constructor": con_ok, "binders_sharing_one_id": shared,
+                   "bare_pattern_names_lowered_against_the_rule(name@offset:kind)": patclass}
+        # (0b) which pattern occurrences are binders is the language's rule (a bare identifier that is a constructor of
+        # the same file tests the constructor whatever is in scope; harness/src/patrule.rs), not lowering's word
+        if patclass != "-":
+            n_patclass += 1
+            kinds = sorted({x.rsplit(":", 1)[1] for x in patclass.split(",")})
+            ctx.report({"oracle": "lowering", "kind": "bare-pattern-name-classified-against-the-file-rule", "kinds": kinds},
+                       "AST lowering turns a constructor name in pattern position into a binder (or a binder into a constructor pattern): "
+                       "the uses of that spelling in its scope then refer to a binder the program does not have", payload)
         # (0) tie: the implementation model reproduces the real resolver
         if impl == real:
             n_eq += 1
@@ -97,7 +107,7 @@ def run(ctx):
             # the `scoped` stream is well-typed by construction WHEN every use means its innermost
             # binder: any rejection is a rejection for scoping reasons
             # ... and so are the witnesses kept under corpus/C05
-            if stream in ("scoped", "names") or cid.startswith("corpus:"):
+            if stream in ("scoped", "names", "patpos") or cid.startswith("corpus:"):
                 n_accept += 1
                 if acc.startswith("err:") and not scope_err:
                     ctx.report({"oracle": "accept", "kind": "well-scoped-well-typed-program-rejected"},
@@ -140,7 +150,9 @@ def run(ctx):
                 "list / pattern in a fifth of them; stream `names` = the catalogue of harness/src/namecat.rs: a binder of every kind "
                 "(fn / closure parameter, let, annotated let, match variable, tuple / struct / enum-payload sub-pattern, struct shorthand) "
                 "spelled like a variant, struct, enum type, function or builtin, used bare, as the callee of a call (plain, parenthesised, under "
-                "unary and binary operators, in arguments, conditions, scrutinees, statements), passed on, aliased, captured, as a receiver); non-trivial = at least 2 binders and 2 identifier uses; distinct by the scope "
+                "unary and binary operators, in arguments, conditions, scrutinees, statements), passed on, aliased, captured, as a receiver); stream `patpos` = "
+                "harness/src/patpos.rs: a constructor name of the file in PATTERN position (first / middle / last arm, before `_`, in a tuple, payload, struct field, let) "
+                "while a fn / closure / method parameter or shorthand field of the same spelling is in scope, arm bodies using that local; non-trivial = at least 2 binders and 2 identifier uses; distinct by the scope "
                 "tree sent to the model",
         "streams(stream/enum-site)": dict(sorted(streams.items())),
         "must_be_accepted(scoped stream)": n_accept,
@@ -150,12 +162,17 @@ def run(ctx):
         "lowering(Model/Lower.lean on the real CST)": lower_cov,
         "impl_oracle_failures": len(ctx.violations),
         "model_diffs": (len(cases) - n_eq) + (lower_cov.get("lower_texts", 0) - lower_cov.get("lower_model_equals_real", 0)),
+        "impl_oracle_failures": len(ctx.violations), "model_diffs": len(cases) - n_eq,
+        "programs_with_a_bare_pattern_name_lowered_against_the_rule": n_patclass,
     }
     ctx.assumptions += [
         "the scope tree sent to the model is the real ast::File produced by the repository's parser and lowering (harness/src/c05.rs)",
         "package-level names (constructors per file, definitions, builtins) are read off the declarations of the real AST and form the outermost scope; "
-        "which of a bare name in PATTERN position is a constructor pattern is taken from the real AST (lower.rs: the name is a variant of an enum "
-        "or a struct declared in the SAME file), it is not a use and the property does not decide it",
+        "which bare name in PATTERN position is a binder is the language's documented rule, applied by harness/src/patrule.rs to the parser's syntax node "
+        "and the file's own declarations, NOT taken from lower.rs: the name is a constructor pattern iff it is a variant of an enum or a struct declared in the "
+        "SAME file, whatever local binders are in scope (a pattern is not a use); every other bare name and every shorthand field is a binder. The property does "
+        "not decide that rule; it decides what the uses in scope of such a pattern refer to (the innermost binder BY that rule) and that a program well-scoped and "
+        "well-typed by it is accepted (stream patpos = harness/src/patpos.rs). Which arm such a pattern selects is C06's",
     ]
     tb = ["Lean 4 kernel", "axioms: " + ",".join(ctx.proof["axioms"] or ["none"]),
           "harness/src/c05.rs (AST→scope tree, HIR walk)", "tools/props/c05.py (comparison)"]
